@@ -29,13 +29,14 @@ CLOSE = "rusl::unistd::close::close"
 
 
 def run(ck, progs, tier):
-    from .c17 import check_slot_capacity, check_cqe_index
+    from .c17 import check_slot_capacity, check_cqe_index, check_flush_publishes
     for cfgname, prog in progs.items():
         ck.set_config(prog)
         run_one(ck, prog)
         # C18.6 an entry the kernel has not consumed yet is never handed out again (its operation would be lost: no completion)
         check_slot_capacity(ck, prog, "C18.6")
         check_cqe_index(ck, prog, "C18.6")
+        check_flush_publishes(ck, prog, "C18.6")
 
 
 def run_one(ck, prog):
@@ -55,6 +56,7 @@ def run_one(ck, prog):
             cond_maps.append(bb)
     ck.ob("C18.1", "setup|cq-mapping-conditional-on-single-mmap", len(cond_maps) == 1, fn=su["path"], detail=f"mappings made under the SINGLE_MMAP feature test: {len(cond_maps)} (expected exactly the completion ring)")
     check_index_array(ck, prog, "C18.1")
+    check_ring_geometry(ck, prog, "C18.1")
     # ---- drop side ----------------------------------------------------------------------------------------------------------
     unmaps = [(bb, dc.args(bb)) for bb, t in dc.cfg.calls(lambda t: t.get("callee") == MUNMAP)]
     ck.ob("C18.1", "drop|three-munmaps", len(unmaps) == 3, fn=d["path"], detail=f"munmap sites in Drop: {len(unmaps)}")
@@ -160,6 +162,24 @@ def run_one(ck, prog):
         if name == "socket":
             okfd = mentions(fd, ctx.prov, lambda z: z[0] == "param" and "domain" in str(z[2]))   # IORING_OP_SOCKET carries the address family in `fd`
         ck.ob("C18.4", f"new_{m.group(1)}|fd", okfd, fn=p, detail=f"the fd field must come from the descriptor / dir-fd parameter, found {show(fd)}")
+        # an argument reaches the entry on every path: a field fed from a parameter is not replaced by a constant on some branch
+        # (the kernel decides which arguments an operation looks at - e.g. the mode of an O_TMPFILE open - not the constructor)
+        dropped = []
+        for fname, e in agg.items():
+            x = strip_casts(e)
+            if isinstance(x, tuple) and x[0] == "var":
+                defs = list(ctx.prov.expand(x))
+                withp = [d for d in defs if mentions(d, ctx.prov, lambda z: z[0] == "param")]
+                if withp and len(withp) < len(defs):
+                    dropped.append(fname)
+        ck.ob("C18.4", f"new_{m.group(1)}|arguments-passed-on-every-path", not dropped, fn=p,
+              detail=f"entry field(s) {dropped} carry the caller's argument on some paths and a constant on others: the operation then differs from the direct system call for the inputs on the other branch")
+        used = {z[1] for e in agg.values() for z in walk_deep(e, ctx.prov, limit=2000) if z[0] == "param"}
+        for b in fn["blocks"]:     # a flag parameter selects a constant: it reaches the entry through the branch it decides
+            if b["term"]["k"] == "switch" and b["id"] in ctx.cfg.live_blocks():
+                used |= {z[1] for z in walk_deep(ctx.prov.operand(b["term"]["discr"], (b["id"], len(b["stmts"]))), ctx.prov) if z[0] == "param"}
+        ck.ob("C18.4", f"new_{m.group(1)}|all-parameters-reach-the-entry", used >= set(range(1, fn["argc"] + 1)), fn=p,
+              detail=f"parameters reaching the entry: {sorted(used)} of {fn['argc']}")
     ck.floor("C18.4", "SQE constructors", n, 16 if ck.config == "C" else 19)   # three constructors need alloc
     uf = prog.fns.get(Q + "unpack_dir_fd")
     if ck.anchor("C18.4", "unpack_dir_fd", uf):
@@ -180,6 +200,35 @@ def run_one(ck, prog):
             ck.ob("C18.5", f"{nm.split('::')[-1]}|ring-fd-first", len(a) > 1 and mentions(a[1], ctx.prov, lambda z: z[0] == "param" and z[1] == 1), fn=nm, site=ctx.site(bb), detail=f"the first syscall argument must be the ring descriptor parameter, found {show(a[1]) if len(a) > 1 else None}")
             used = {z[1] for x in a[1:] for z in walk_deep(x, ctx.prov) if z[0] == "param"}
             ck.ob("C18.5", f"{nm.split('::')[-1]}|all-parameters-used", used >= set(range(1, fn["argc"] + 1)), fn=nm, site=ctx.site(bb), detail=f"every parameter must reach the system call; parameters used {sorted(used)} of {fn['argc']}")
+
+
+def check_ring_geometry(ck, prog, rule):
+    """every word of a ring is found through that ring's own offset table: the submission queue's head/tail/flags/dropped/mask/entries
+    come from sq_off.<same name>, the completion queue's from cq_off.<same name> (with one mapping shared by both rings a read at the
+    other table's offset is a valid read of the wrong word).  Shared by C17.7 and C18.1."""
+    su = prog.fns.get("rusl::io_uring::setup_io_uring")
+    if not ck.anchor(rule, "setup_io_uring", su):
+        return
+    sc = prog.ctx(su)
+    want = {"kernel_head": "head", "kernel_tail": "tail", "kernel_flags": "flags", "kernel_dropped": "dropped", "kernel_overflow": "overflow", "ring_mask": "ring_mask", "ring_entries": "ring_entries"}
+    table = {"UringSubmissionQueue": "io_sqring_offsets", "UringCompletionQueue": "io_cqring_offsets"}
+    n = 0
+    for b in su["blocks"]:
+        for i, st in enumerate(b["stmts"]):
+            if not (st["k"] == "assign" and st["rv"]["k"] == "agg" and (st["rv"].get("adt") or "").split("::")[-1] in table):
+                continue
+            q = st["rv"]["adt"].split("::")[-1]
+            vals = dict(zip(st["rv"]["fields"], [sc.prov.operand(o, (b["id"], i)) for o in st["rv"]["ops"]]))
+            offs = lambda e: {(y[2], (y[3] or "").split("::")[-1]) for y in walk_deep(e, sc.prov, limit=4000) if y[0] == "field" and (y[3] or "").endswith("ring_offsets")}
+            base = offs(vals.get("ring_ptr")) | offs(vals.get("ring_size"))     # offsets that only size / place the mapping
+            for f, oname in want.items():
+                if f not in vals:
+                    continue
+                n += 1
+                got = offs(vals[f]) - base
+                ck.ob(rule, f"setup|{q}.{f}|read-at-its-own-offset", got == {(oname, table[q])}, fn=su["path"], site=sc.site(b["id"]),
+                      detail=f"{q}.{f} must be located with {table[q]}.{oname}; it is located with {sorted(got)}")
+    ck.floor(rule, "ring words located in set-up", n, 12)
 
 
 def check_index_array(ck, prog, rule):
